@@ -525,15 +525,14 @@ public:
                 if (m == 1) {
                     args.push_back(this->get_var());
                 } else {
-                    args.push_back(
-                        Mul::from_dict(integer(m), {{this->get_var(), one}}));
+                    args.push_back(mul(integer(m), this->get_var()));
                 }
             } else {
                 if (m == 1) {
                     args.push_back(pow(this->get_var(), integer(it->first)));
                 } else {
-                    args.push_back(Mul::from_dict(
-                        integer(m), {{this->get_var(), integer(it->first)}}));
+                    args.push_back(mul(
+                        integer(m), pow(this->get_var(), integer(it->first))));
                 }
             }
         }
@@ -566,16 +565,16 @@ public:
                 if (m == 1) {
                     args.push_back(this->get_var());
                 } else {
-                    args.push_back(Mul::from_dict(Rational::from_mpq(m),
-                                                  {{this->get_var(), one}}));
+                    args.push_back(
+                        mul(Rational::from_mpq(m), this->get_var()));
                 }
             } else {
                 if (m == 1) {
                     args.push_back(pow(this->get_var(), integer(it->first)));
                 } else {
-                    args.push_back(Mul::from_dict(
-                        Rational::from_mpq(m),
-                        {{this->get_var(), integer(it->first)}}));
+                    args.push_back(
+                        mul(Rational::from_mpq(m),
+                            pow(this->get_var(), integer(it->first))));
                 }
             }
         }
